@@ -6,6 +6,7 @@ import KoordVerif.Proofs.C04ExtWire
 import KoordVerif.Proofs.C04ExtCreate
 import KoordVerif.Proofs.C04ExtGone
 import KoordVerif.Proofs.C04ExtPolicy
+import KoordVerif.Proofs.C04ExtRsv
 /-
 C04 — gang scheduling is all-or-nothing across the whole gang group (property theorems).
 
@@ -95,6 +96,19 @@ counts (waiting, or waiting + bound under waiting-and-running).
    base_inv_any_default / partition_reachable_any_default_partial / group_never_empty_any_default   the history theorems
                                 of C and F from `initWith d`, i.e. under every configured default (the partition one
                                 is partial for the same reason as partition_inv_partial: hypothesis ContractOK)
+ J. Reservations that are gang members (adapter glue in the model: Rsv / reservePodHasNode / deliverRsv — what
+    reservationutil.NewReservePod + NewReservationToPodEventHandler hand to the pod handler; Proofs/C04ExtRsv.lean)
+   requested_node_is_not_a_binding   the node a Reservation REQUESTS (spec.template.spec.nodeName) never reaches the cache
+   unscheduled_reservation_binds_nothing   a Reservation without status.nodeName — pinned or not, any phase, add or update,
+                                ANY cache state — brings no pod into any bound set
+   scheduled_reservation_is_assigned_pod   a scheduled one is a pod WITH node name (update: unless terminated)
+   bound_only_after_binding     after ANY history a pod is in a bound set only if an event showed its node name or its
+                                PostBind ran (the harness' own `bound` flag is a superset of the cache's bound sets)
+   reserve_pod_bound_only_when_scheduled   ... in particular a reserve pod all of whose events were deliveries of an
+                                unscheduled Reservation, through any history of other events and calls
+   pinned_pending_reservation_waits   end to end: pending Reservation that pins a node + first ordinary member of min 3: Wait
+   requested_node_read_as_binding_counterexample   "already bound" read off the reservation-node annotation: the pending
+                                Reservation is bound, the group once-satisfied, the first member released with 1 of min 3
 -/
 namespace KoordVerif.C04
 
@@ -1093,5 +1107,87 @@ theorem partition_reachable_any_default_partial (d : Nat) (ops : List Op) (hc : 
 
 theorem group_never_empty_any_default (d : Nat) (ops : List Op) : ∀ g ∈ (run (initWith d) ops).gangs, g.group ≠ [] :=
   groupNE_run (initWith d) ops (fun g hg => by simp [initWith_gangs] at hg)
+
+/-! ## J. Reservations that are gang members -/
+
+/-- The code's adapter never looks at the node a Reservation REQUESTS (spec.template.spec.nodeName): the pod event the
+    GangCache sees is the same whether the template pins a node or not. -/
+theorem requested_node_is_not_a_binding (upd : Bool) (r : Rsv) (b : Bool) (p : Pod) (g : GangId)
+    (anno : Option (Bool × Cfg)) :
+    deliverRsv 0 upd { r with req := b } p g anno = deliverRsv 0 upd r p g anno := by
+  simp [deliverRsv, reservePodHasNode, reservePodTerminated]
+
+/-- the delivery of an unscheduled Reservation is not a binding event -/
+theorem unscheduled_reservation_not_binding (upd : Bool) (r : Rsv) (hr : r.sched = false) (p : Pod) (g : GangId)
+    (anno : Option (Bool × Cfg)) : (deliverRsv 0 upd r p g anno).binds? = none :=
+  deliverRsv_unscheduled_binds_none upd r hr p g anno
+
+/-- A Reservation that is NOT scheduled (status.nodeName empty) — pinned to a node or not, whatever its phase, add or
+    update, in ANY state of the cache — brings no pod into the bound set of any gang: a reserve-pod member counts as
+    bound only once its Reservation is actually scheduled. -/
+theorem unscheduled_reservation_binds_nothing (s : State) (upd : Bool) (r : Rsv) (hr : r.sched = false) (p : Pod)
+    (g : GangId) (anno : Option (Bool × Cfg)) (q : Pod) (h : AllG (PodSets.Unbound q) s.gangs) :
+    AllG (PodSets.Unbound q) (step s (deliverRsv 0 upd r p g anno)).1.gangs :=
+  step_keeps_unbound q s _ (by rw [unscheduled_reservation_not_binding upd r hr]; simp) h
+
+/-- A scheduled Reservation is, for the GangCache, a pod WITH node name: on add whatever its phase (onPodAdd does not look
+    at the phase), on update unless it is terminated (succeeded / failed: onPodUpdate drops the event). -/
+theorem scheduled_reservation_is_assigned_pod (r : Rsv) (hr : r.sched = true) (p : Pod) (g : GangId)
+    (anno : Option (Bool × Cfg)) :
+    deliverRsv 0 false r p g anno = .podEvt p g true anno ∧
+    (r.phase = 0 → deliverRsv 0 true r p g anno = .podEvt p g true anno) ∧
+    (r.phase ≠ 0 → deliverRsv 0 true r p g anno = .nop) := by
+  refine ⟨by simp [deliverRsv, reservePodHasNode, hr], ?_, ?_⟩
+  · intro h; simp [deliverRsv, reservePodHasNode, reservePodTerminated, hr, h]
+  · intro h; simp [deliverRsv, reservePodTerminated, h]
+
+/-- After ANY history (any configured default) a pod is in the bound set of a cached gang only if some event showed its
+    node name or its PostBind ran.  This is what the oracle's own `bound` flag records: it is a superset of the cache's
+    bound sets, so "a reserve pod in the bound set that the harness never saw scheduled" cannot happen on the model. -/
+theorem bound_only_after_binding (d : Nat) (ops : List Op) (q : Pod) (hops : ∀ op ∈ ops, op.binds? ≠ some q) :
+    AllG (PodSets.Unbound q) (run (initWith d) ops).gangs :=
+  run_keeps_unbound q ops (initWith d) hops (fun g hg => by simp [initWith_gangs] at hg)
+
+/-- every op of the history is either the delivery of an unscheduled Reservation as reserve pod `q`, or does not bind `q` -/
+def RsvUnscheduled (q : Pod) (ops : List Op) : Prop :=
+  ∀ op ∈ ops, (∃ upd r g anno, r.sched = false ∧ op = deliverRsv 0 upd r q g anno) ∨ op.binds? ≠ some q
+
+/-- A reserve pod whose Reservation was never shown scheduled (and that never went through PostBind) is in no bound
+    set, through ANY history of other events and calls — whatever node its template requests. -/
+theorem reserve_pod_bound_only_when_scheduled (d : Nat) (ops : List Op) (q : Pod) (h : RsvUnscheduled q ops) :
+    AllG (PodSets.Unbound q) (run (initWith d) ops).gangs := by
+  apply bound_only_after_binding
+  intro op hop
+  rcases h op hop with ⟨upd, r, g, anno, hr, rfl⟩ | h
+  · rw [unscheduled_reservation_not_binding upd r hr]; simp
+  · exact h
+
+/-- End to end, the code's rule: a pending Reservation member that pins a node is a PENDING child; the first ordinary
+    member of the gang (min 3) waits at Permit under each of the three match policies. -/
+theorem pinned_pending_reservation_waits :
+    ∀ pol ∈ [0, 1, 2],
+      (permit (run init (pinnedReservationHistory 0 pol)) 2 0).2.verdict = 1 ∧
+      ∃ g, findGang (run init (pinnedReservationHistory 0 pol)).gangs 0 = some g ∧ 1 ∈ g.ps.pending ∧ g.ps.bound = [] := by
+  decide
+
+/-- non-vacuity of `reserve_pod_bound_only_when_scheduled`: the history above (reserve pod 1: pending, pins a node),
+    followed by Permit of the reserve pod itself and its roll-back -/
+example : RsvUnscheduled 1 (pinnedReservationHistory 0 1 ++ [.permit 2 0, .permit 1 0, .unreserve 1 0]) := by
+  intro op hop
+  simp only [pinnedReservationHistory, List.cons_append, List.nil_append, List.mem_cons, List.mem_nil_iff, or_false] at hop
+  rcases hop with rfl | rfl | rfl | rfl | rfl | rfl | rfl
+  · right; decide
+  · left; exact ⟨false, { req := true, sched := false, phase := 0 }, 0, none, rfl, rfl⟩
+  all_goals right; decide
+
+/-- Were "already bound" also decided by the reservation-node annotation (the REQUESTED node), the same history puts the
+    pending Reservation into the bound set, flips the group's once-satisfied flag, and the first ordinary member is
+    released at Permit with 1 member of min 3 holding resources (once-satisfied); under waiting-and-running the pending
+    Reservation is counted as a bound member. -/
+theorem requested_node_read_as_binding_counterexample :
+    (let r := permit (run init (pinnedReservationHistory 1 2)) 2 0
+     r.2.verdict = 0 ∧ ∃ g, findGang r.1.gangs 0 = some g ∧ g.min = 3 ∧ g.ps.waiting = [2] ∧ g.ps.bound = [1]) ∧
+    (∃ g, findGang (run init (pinnedReservationHistory 1 1)).gangs 0 = some g ∧ g.ps.bound = [1]) := by
+  decide
 
 end KoordVerif.C04
